@@ -409,6 +409,10 @@ func (g *Generator) AdjustMounts(mounts []*nri.Mount) error {
 	for _, m := range mounts {
 		if destination, marked := m.IsMarkedForRemoval(); marked {
 			g.RemoveMount(destination)
+		}
+	}
+	for _, m := range mounts {
+		if _, marked := m.IsMarkedForRemoval(); marked {
 			continue
 		}
 
